@@ -19,7 +19,19 @@ Proof. vm_compute. reflexivity. Qed.
    type, no key_ops restriction (a public JWK export) *)
 Definition corresponds (k k' : key) : Prop :=
   k_id k' = k_id k /\ k_kty k' = k_kty k /\ k_crv k' = k_crv k /\ k_bits k' = k_bits k /\
-  k_use k' = k_use k /\ k_ops k' = None.
+  k_use k' = k_use k /\ check_key_op k' "verify" = Ok tt.
+
+(* the verifier's key may be restricted by key_ops as long as "verify" is allowed
+   (its private flag does not matter: "verify" is a public operation) *)
+Lemma corresponds_of_ops (k k' : key) :
+  k_id k' = k_id k -> k_kty k' = k_kty k -> k_crv k' = k_crv k -> k_bits k' = k_bits k ->
+  k_use k' = k_use k ->
+  match k_ops k' with None => True | Some ops => str_mem (asc "verify") ops = true end ->
+  corresponds k k'.
+Proof.
+  intros A B C D E F. repeat (split; [assumption|]). unfold check_key_op.
+  destruct (k_ops k') as [ops|]; [rewrite F|]; rewrite op_private_verify; reflexivity.
+Qed.
 
 (* ---------- set_kid keeps a valid header valid ---------- *)
 Definition reg_kid_ok (reg : list hparam) : bool :=
@@ -123,8 +135,8 @@ Section C03.
   Notation asign := (alg_sign mac pk_sign ec_sign).
   Notation averify := (alg_verify mac pk_verify ec_verify).
 
-  Lemma check_key_op_verify k' : k_ops k' = None -> check_key_op k' "verify" = Ok tt.
-  Proof. intro H. unfold check_key_op. rewrite H, op_private_verify. reflexivity. Qed.
+  Lemma check_key_op_verify k' : check_key_op k' "verify" = Ok tt -> check_key_op k' "verify" = Ok tt.
+  Proof. auto. Qed.
 
   Lemma mistyped_corr f k k' : k_kty k' = k_kty k -> mistyped f k' = mistyped f k.
   Proof. intro H. unfold mistyped. rewrite H. reflexivity. Qed.
